@@ -379,3 +379,57 @@ def unknown_setting(vi: int, oc: int) -> bool:
         cov.done('unknown')
         return True
     return False
+
+
+# ---------------------------------------------------------------------------
+# text codecs of duration / memory settings (the integer <-> decimal text part CrossHair and the
+# string solvers cannot reason about symbolically): a structured finite family, chosen symbolically,
+# executed natively
+
+_HOURS = [0, 1, 12, 25, 100000]
+_MINS = [0, 1, 59]
+_SECS = [0, 1, 59]
+_MICROS = [0, 1, 250000, 500000, 999999, 100]
+_MEM = [0, 1, 1023, 1024, 1025, 1024 ** 2, 1024 ** 3, 5 * 1024 ** 4, 1536, 1024 ** 5 * 3]
+
+
+def duration_roundtrip(neg: bool, hi: int, mi: int, si: int, ui: int) -> bool:
+    """Duration: microseconds -> ISO-8601 text -> microseconds, and through the JSON form of a setting value."""
+    from vlib.concrete import concrete_index, untraced
+    from edb.ir import statypes
+    hi, mi, si, ui = (concrete_index(hi, len(_HOURS)), concrete_index(mi, len(_MINS)), concrete_index(si, len(_SECS)),
+                      concrete_index(ui, len(_MICROS)))
+    if min(hi, mi, si, ui) < 0:
+        return True
+    neg = True if neg else False
+    with untraced():
+        us = ((_HOURS[hi] * 60 + _MINS[mi]) * 60 + _SECS[si]) * 1000000 + _MICROS[ui]
+        if neg:
+            us = -us
+        d = statypes.Duration.from_microseconds(us)
+        text = d.to_iso8601()
+        back = statypes.Duration.from_iso8601(text)
+        ok = back.to_microseconds() == us and back == d
+        # the form config.to_json writes and from_json reads
+        js = d.to_json()
+        back2 = statypes.Duration(js)
+        ok = ok and back2.to_microseconds() == us
+        # PostgreSQL interval text form (what the backend returns for the setting)
+        back3 = statypes.Duration(d.to_backend_str())
+        ok = ok and back3.to_microseconds() == us
+        cov.done('duration')
+        return ok
+
+
+def memory_roundtrip(mi: int) -> bool:
+    from vlib.concrete import concrete_index, untraced
+    from edb.ir import statypes
+    mi = concrete_index(mi, len(_MEM))
+    if mi < 0:
+        return True
+    with untraced():
+        n = _MEM[mi]
+        m = statypes.ConfigMemory(n)
+        ok = statypes.ConfigMemory(m.to_str()).to_nbytes() == n and statypes.ConfigMemory(m.to_json()).to_nbytes() == n
+        cov.done('memory')
+        return ok
